@@ -13,17 +13,17 @@ import (
 
 // SQLStmt is a classified SQL statement template.
 type SQLStmt struct {
-	Raw      string
-	Verb     string      // SELECT INSERT UPDATE DELETE CREATE-TABLE CREATE-INDEX ALTER
-	Table    string      // lower case
-	Cols     []string    // SELECT list ("*" possible), INSERT column list, UPDATE SET columns, CREATE TABLE columns
-	Values   []string    // INSERT VALUES items
-	Upsert   [][2]string // ON CONFLICT DO UPDATE SET col = expr
-	Where    []string    // columns constrained in WHERE
+	Raw    string
+	Verb   string      // SELECT INSERT UPDATE DELETE CREATE-TABLE CREATE-INDEX ALTER
+	Table  string      // lower case
+	Cols   []string    // SELECT list ("*" possible), INSERT column list, UPDATE SET columns, CREATE TABLE columns
+	Values []string    // INSERT VALUES items
+	Upsert [][2]string // ON CONFLICT DO UPDATE SET col = expr
+	Where  []string    // columns constrained in WHERE
 	// UpsertWhere: tokens of a WHERE that guards ON CONFLICT DO UPDATE (nil = unconditional)
 	UpsertWhere []string
-	WhereRaw string
-	Params   int // number of ? placeholders
+	WhereRaw    string
+	Params      int // number of ? placeholders
 }
 
 // SQLSite is a call that executes or prepares SQL.
